@@ -42,12 +42,12 @@ def decodeCreateContent (c : Option JVal) : Option CreateContent :=
   | none => none
   | some .null => some {}
   | some (.obj kvs) =>
-    let fed := decBoolPtr (lookupField kvs b!"m.federate")
-    let creator := decString (lookupField kvs b!"creator")
-    let rv := decStringPtr (lookupField kvs b!"room_version")
-    let ty := decString (lookupField kvs b!"type")
-    let ac := decStringSlice (lookupField kvs b!"additional_creators")
-    let predErr := match lookupField kvs b!"predecessor" with
+    let fed := decBoolPtr (lookupExact kvs b!"m.federate")
+    let creator := decString (lookupExact kvs b!"creator")
+    let rv := decStringPtr (lookupExact kvs b!"room_version")
+    let ty := decString (lookupExact kvs b!"type")
+    let ac := decStringSlice (lookupExact kvs b!"additional_creators")
+    let predErr := match lookupExact kvs b!"predecessor" with
       | none => false
       | some .null => false
       | some (.obj p) => (decString (lookupField p b!"room_id")).err || (decString (lookupField p b!"event_id")).err
@@ -189,13 +189,13 @@ def parseIntegerPowerLevels (c : Option JVal) (d : PowerLevels) : Option PowerLe
   | none => none
   | some .null => some d
   | some (.obj kvs) =>
-    let f (name : Bytes) (dflt : Int) := decIntLevel dflt (lookupField kvs name)
+    let f (name : Bytes) (dflt : Int) := decIntLevel dflt (lookupExact kvs name)
     let ban := f b!"ban" d.ban; let invite := f b!"invite" d.invite; let kick := f b!"kick" d.kick
     let redact := f b!"redact" d.redact; let ud := f b!"users_default" d.usersDefault
     let ed := f b!"events_default" d.eventsDefault; let sd := f b!"state_default" d.stateDefault
-    let users := decodeIntMap d.users (lookupField kvs b!"users")
-    let events := decodeIntMap d.events (lookupField kvs b!"events")
-    let notif := decodeIntMap d.notifications (lookupField kvs b!"notifications")
+    let users := decodeIntMap d.users (lookupExact kvs b!"users")
+    let events := decodeIntMap d.events (lookupExact kvs b!"events")
+    let notif := decodeIntMap d.notifications (lookupExact kvs b!"notifications")
     if ban.err || invite.err || kick.err || redact.err || ud.err || ed.err || sd.err || users.err || events.err || notif.err
     then none
     else some { ban := ban.val, invite := invite.val, kick := kick.val, redact := redact.val, usersDefault := ud.val,
@@ -282,9 +282,9 @@ def parsePowerLevels (c : Option JVal) (d : PowerLevels) : R PowerLevels :=
   | some .null => .ok d
   | some (.obj kvs) =>
     let fields := [b!"invite", b!"ban", b!"kick", b!"redact", b!"users_default", b!"state_default", b!"events_default"]
-    let decs := fields.map (fun n => decLevel (lookupField kvs n))
-    let maps := [decLevelMap (lookupField kvs b!"users"), decLevelMap (lookupField kvs b!"events"),
-                 decLevelMap (lookupField kvs b!"notifications")]
+    let decs := fields.map (fun n => decLevel (lookupExact kvs n))
+    let maps := [decLevelMap (lookupExact kvs b!"users"), decLevelMap (lookupExact kvs b!"events"),
+                 decLevelMap (lookupExact kvs b!"notifications")]
     let isBad (l : LevelDec) : Bool := match l with | .bad => true | _ => false
     let isUnm (l : LevelDec) : Bool := match l with | .unmodelled => true | _ => false
     let anyBad := decs.any isBad || maps.any (fun m => match m with | none => true | some es => es.any (fun e => isBad e.2))
@@ -320,12 +320,12 @@ def decodeJoinRule (c : Option JVal) : Option Bytes :=
   | none => none
   | some .null => some b!"invite"
   | some (.obj kvs) =>
-    let jr := match lookupField kvs b!"join_rule" with
+    let jr := match lookupExact kvs b!"join_rule" with
       | none => (⟨b!"invite", false⟩ : Dec Bytes)
       | some .null => ⟨b!"invite", false⟩
       | some (.str s) => ⟨s, false⟩
       | some _ => ⟨b!"invite", true⟩
-    let allowErr := match lookupField kvs b!"allow" with
+    let allowErr := match lookupExact kvs b!"allow" with
       | none => false
       | some .null => false
       | some (.arr xs) => xs.any (fun x => match x with
@@ -344,9 +344,9 @@ def decodeThirdPartyInviteKeys (c : Option JVal) : Option Nat :=
   | none => none
   | some .null => some 0
   | some (.obj kvs) =>
-    let e1 := (decString (lookupField kvs b!"display_name")).err || (decString (lookupField kvs b!"key_validity_url")).err
-      || (decString (lookupField kvs b!"public_key")).err
-    match lookupField kvs b!"public_keys" with
+    let e1 := (decString (lookupExact kvs b!"display_name")).err || (decString (lookupExact kvs b!"key_validity_url")).err
+      || (decString (lookupExact kvs b!"public_key")).err
+    match lookupExact kvs b!"public_keys" with
     | none => if e1 then none else some 0
     | some .null => if e1 then none else some 0
     | some (.arr xs) =>
@@ -571,8 +571,8 @@ def checkCreateEvent (e : Event) (sender : UserID) : R Unit :=
       | none => notAllowed
       | some .null => notAllowed          -- creator == nil
       | some (.obj kvs) =>
-        let creator := decStringPtr (lookupField kvs b!"creator")
-        let rv := decStringPtr (lookupField kvs b!"room_version")
+        let creator := decStringPtr (lookupExact kvs b!"creator")
+        let rv := decStringPtr (lookupExact kvs b!"room_version")
         if creator.err || rv.err then notAllowed
         else if creator.val.isNone then notAllowed
         else match rv.val with
@@ -586,7 +586,7 @@ def checkCreateEvent (e : Event) (sender : UserID) : R Unit :=
       | none => notAllowed
       | some .null => .ok ()
       | some (.obj kvs) =>
-        let rv := decStringPtr (lookupField kvs b!"room_version")
+        let rv := decStringPtr (lookupExact kvs b!"room_version")
         if rv.err then notAllowed
         else match rv.val with
           | some v => if knownRoomVersion v then .ok () else notAllowed
@@ -603,8 +603,8 @@ def checkCreateEvent (e : Event) (sender : UserID) : R Unit :=
         match kvs with
         | none => notAllowed
         | some kvs =>
-          let rv := decStringPtr (lookupField kvs b!"room_version")
-          let ac := decStringSlice (lookupField kvs b!"additional_creators")
+          let rv := decStringPtr (lookupExact kvs b!"room_version")
+          let ac := decStringSlice (lookupExact kvs b!"additional_creators")
           if rv.err || ac.err then notAllowed
           else if (match rv.val with | some v => !knownRoomVersion v | none => false) then notAllowed
           else
